@@ -220,7 +220,11 @@ def ActorV.preview (c : Colors) (a : ActorV) (w : Int) : Except Panic Str :=
 def failureName (c : Colors) (msg : Str) : Str := problem c msg
 def failureString (c : Colors) (msg : Str) (w : Int) : Str := Ansi.wrap (problem c msg) w
 
-/-- `Activity.header(width)`: empty for `Create`, otherwise "<actor> retweeted|upvoted|downvoted:". -/
+/-- `Activity.header(width)`: empty for `Create`, otherwise "<actor> retweeted|upvoted|downvoted:".
+    Only for the four kinds `NewActivityFromObject` lets through (Create, Announce, Like, Dislike):
+    for any other kind the code panics ("encountered unrecognized Activity type") where this
+    function answers "downvoted" — `Gen01p.activity_header_unknown_kind` states that about the
+    translated code, `Gen01p.activity_header_eq` the equality on the four kinds. -/
 def activityHeader (_c : Colors) (kind : Str) (actorName : Str) (w : Int) : Str :=
   if kind = "Create".toList then []
   else
